@@ -41,8 +41,8 @@ def make_plan(pid, tier, seed, ctx):
         mn = '%s_%s%s' % (pid.lower(), oa[0], ob[0])
         modules[mn] = [('harness/C15_api.cpp', 'coro20', (MODEL_INC, '-DOPT_A=' + oa, '-DOPT_B=' + ob))] + [(l, 'coro20', (MODEL_INC,)) for l in LIB]
         mopts[mn] = {'nthreads': 2, 'heap': 2048, 'stack': 4096, 'preempt': True, 'hb': True}
-        units = ['c15_start_%s_%d' % (f, i) for f in forms for i in range(3)] + tries
-        hold_units = ['c15_release', 'c15_start_w_hold_3', 'c15_start_r_hold_3', 'c15_start_m_hold_3']
+        units = ['c15_start_%s_%d' % (f, i) for f in forms for i in range(3)] + ['c15_startd_%s_2' % f for f in forms] + tries
+        hold_units = ['c15_release', 'c15_start_w_hold_3', 'c15_start_r_hold_3', 'c15_start_m_hold_3', 'c15_drain']
         head = core.decls(units + hold_units) + 'void c15_prologue(uint32_t);\nvoid c15_epilogue(uint32_t, uint32_t);\n' + core.unit_selector(units + hold_units)
         first = [True]
 
@@ -66,10 +66,17 @@ def make_plan(pid, tier, seed, ctx):
                    ('r_hold', ['r_guard', 'w_lock', 'w_guard'])] if shared else [('m_hold', ['lock_unlock', 'guard', 'lock_unlockhere']), ('m_hold', ['lock_unlockon', 'lock_unlock', 'guardsticky'])]
         units_h = units + hold_units
         for hi, (h, arr) in enumerate(holders):
-            pre = ['c15_start_%s_3' % h] + ['c15_start_%s_%d' % (f, i) for i, f in enumerate(arr[:2])]
-            last = 'c15_start_%s_2' % arr[2]
             base = '%s_hold%d_%s__%s' % (mn, hi, h, '_'.join(arr))
-            for dfr in ((0, 1) if (oa, ob) == opts[0] else (1,)):   # inline executors nest 4 resumptions: symex does not finish for the other option sets
+            # four contended coroutines: for SharedMutex symex finishes only for the first option set (the others: no verdict in 300 s, left out and stated); Mutex takes all
+            for dfr in ((0, 1) if (not shared or (oa, ob) == opts[0]) else ()):
+                if dfr and not shared and hi > 0:
+                    continue   # UnlockOn / GuardSticky forms + drains overflow the 4-slot mailbox of the stub executor: inline only
+                if dfr:   # deferred executors: every start is followed by a drain, so that the coroutine reaches its lock request
+                    pre = ['c15_start_%s_3' % h, 'c15_drain'] + [x for i, f in enumerate(arr[:2]) for x in ('c15_start_%s_%d' % (f, i), 'c15_drain')]
+                    last = 'c15_startd_%s_2' % arr[2]
+                else:
+                    pre = ['c15_start_%s_3' % h] + ['c15_start_%s_%d' % (f, i) for i, f in enumerate(arr[:2])]
+                    last = 'c15_start_%s_2' % arr[2]
                 for k in range(-1, kmax):
                     nm = '%s%s_k%s' % (base, '_d' if dfr else '', 'none' if k < 0 else k)
                     add(nm, entry(nm, dfr, pre, last, units_h.index('c15_release') + 1, [], k, 4, 1 if shared else 0, kmax),
@@ -85,6 +92,13 @@ def make_plan(pid, tier, seed, ctx):
                 for k in range(-1, kmax):
                     nm = '%s_k%s' % (base, 'none' if k < 0 else k)
                     add(nm, entry(nm, 0, [], ua, units.index(t) + 1, [], k, 1, 1 if shared else 0, kmax), '<%s,%s>: coroutine %s vs %s at operation #%s' % (oa, ob, f, t, 'after the end' if k < 0 else k), base)
+        if shared and (oa, ob) == opts[0]:   # the prober is the OUTER unit (first option set only: the others give no verdict in 300 s): a writer parked inside its critical section releases at operation #k of TryLock / TryLockShared
+            for t in tries:
+                base = '%s_whold_release__%s' % (mn, t[4:])
+                for k in range(-1, 6):
+                    nm = '%s_k%s' % (base, 'none' if k < 0 else k)
+                    add(nm, entry(nm, 0, ['c15_start_w_hold_3'], t, units_h.index('c15_release') + 1, [], k, 1, 2, kmax),
+                        '<%s,%s>: a writer parked inside its critical section releases at operation #%s of %s; afterwards a reader must still park behind a writer' % (oa, ob, 'after the end' if k < 0 else k, t), base)
     meta = {
         'rule': 'Per option pair x pair of coroutine forms x optional third coroutine (started before or after) x executor mode x preemption index one query; critical sections contain an explicit schedule point.',
         'bounds': {'racing_coroutines': 2, 'sequenced_third_coroutine': True, 'rounds': 1, 'tier_A_kmax': kmax, 'options': opts},
